@@ -1802,9 +1802,10 @@ pub fn evaluate(case: &Case, results: &[Vec<RunResult>], report: &mut CaseReport
                     let mut is_parse_error = e.contains("failed to parse ");
                     let mut positioned = false;
                     for p in &parse_failures {
+                        // (with the separator in front: `0.pyxis` is not `m0.pyxis`)
                         let file_name = std::path::Path::new(p.as_str())
                             .file_name()
-                            .map(|f| f.to_string_lossy().into_owned())
+                            .map(|f| format!("/{}", f.to_string_lossy()))
                             .unwrap_or_default();
                         let Some(text) = world
                             .module_files()
